@@ -22,7 +22,7 @@ def setup():
         "oo": sp.oo, "noo": -sp.oo, "nan": sp.nan,
         "m": units.meter, "km": units.kilometer, "cm": units.centimeter, "s": units.second,
         "minute": units.minute, "kg": units.kilogram, "gram": units.gram,
-        "newton": units.newton, "joule": units.joule, "rad": units.radian,
+        "newton": units.newton, "hz": units.hertz, "joule": units.joule, "rad": units.radian,
         "kilo": sp.sympify(prefixes.kilo), "milli": sp.sympify(prefixes.milli),   # NB: 10**-3 is a float in the library
         "pkilo": sp_prefixes.kilo,
         "q2m": Quantity(2 * units.meter), "q4m2": Quantity(4 * units.meter**2), "q0": Quantity(0),
@@ -32,7 +32,7 @@ def setup():
     return leaves
 
 
-ARITY = {"mul2": 2, "mul3": 3, "add2": 2, "add3": 3, "pow": 2, "abs": 1, "min2": 2, "max2": 2, "exp": 1,
+ARITY = {"atan2": 2, "mul2": 2, "mul3": 3, "add2": 2, "add3": 3, "pow": 2, "abs": 1, "min2": 2, "max2": 2, "exp": 1,
          "neg": 1, "d1": 2, "d2": 2}
 
 
@@ -63,6 +63,8 @@ def build(prog, leaves, evaluate: bool, extra_ops=None):
             st.append(sp.Max(*args, evaluate=evaluate))
         elif tok == "exp":
             st.append(sp.exp(args[0], evaluate=evaluate))
+        elif tok == "atan2":
+            st.append(sp.atan2(args[0], args[1], evaluate=evaluate))
         else:
             raise KeyError(tok)
     assert len(st) == 1, prog
